@@ -7,7 +7,7 @@ COMMON_ASSUMPTIONS = [
     "checks build /repo's working tree through the module replace directive, with -tags verif",
 ]
 
-HOOK_COMMITS = ["e364d764e802b6068fdf9985cfa7cb243dd54f15"]
+HOOK_COMMITS = ["e364d764e802b6068fdf9985cfa7cb243dd54f15", "08e4444373b204ed941e1151ccaf72b02a37e293"]
 
 NOT_APPLICABLE = {}
 
